@@ -103,7 +103,7 @@ func (c Cfg) Apply() {
 	}
 }
 
-var attrPrefixes = []string{"-", "@", "_", "attr_", "§", ""}
+var attrPrefixes = []string{"-", "@", "_", "attr_", "§", "Attr_", "A", ""}
 var keyPrefixes = []string{"#", "%", "_", "&"}
 
 // GenCfg draws a configuration; full=false flips each option with lower probability so defaults stay common.
@@ -111,7 +111,7 @@ func GenCfg(r *rand.Rand, allowEmptyAttrPrefix, allowSeqNum bool) Cfg {
 	c := DefaultCfg()
 	aps := attrPrefixes
 	if !allowEmptyAttrPrefix {
-		aps = aps[:5]
+		aps = aps[:7]
 	}
 	if r.Intn(2) == 0 {
 		c.AttrPrefix = aps[r.Intn(len(aps))]
